@@ -6,7 +6,7 @@ Import ListNotations.
 Local Open Scope string_scope.
 
 Definition show_outcome (r : outcome) : string :=
-  match r with OK v => show_Z v | Boom => "B" | Cancelled => "X" end.
+  match r with OK v => show_Z v | Boom => "B" | Cancelled => "X" | BoomBase => "BB" end.
 
 Definition show_ev (e : ev * nat) : string :=
   (match fst e with
